@@ -256,6 +256,8 @@ impl SubflowPackage {
     ensures
         //# B1-the-calling-act-waits-before-the-child-is-started
         final(sa).waiting == old(sa).waiting.push(false) && (ret is Ok ==> final(sa).launched.last().flags_before == old(sa).waiting.len() + 1),
+        //# B1-the-call-writes-nothing-into-the-callers-scopes (a package's returned values are written by Act::run into every enclosing scope that holds the name: the link to the calling act must not travel upwards)
+        ret is Ok ==> ret->Ok_0 is None,
         //# B1-a-missing-target-model-fails-the-call
         !old(sa).models.dom().contains(self.to@) ==> ret is Err && final(sa).launched == old(sa).launched,
         //# B1-the-child-starts-with-exactly-the-inputs-of-the-call-and-the-link-to-the-calling-act
